@@ -141,7 +141,8 @@ def apply_fault(lines: List[str], i: int, fault: str, variant: int) -> List[str]
         new[i] = re.sub(r' (<>|>|<|-) ', [' => ', ' >> ', ' ~ '][variant % 3], ln, count=1)
     elif fault == 'bad_action':
         # an unknown word, real actions with their blank removed / replaced, a real action with a tail, half an action
-        bad = ['zzz', 'setnull', 'noaction', 'setdefault', 'cascading', 'set', 'no_action', 'set-null'][variant % 8]
+        bad = ['zzz', 'setnull', 'noaction', 'setdefault', 'cascading', 'set', 'no_action', 'set-null', 'cascad', 'restric', 'action', 'null',
+               'default'][variant % 13]
         new[i] = re.sub(r'\b(update|delete): [a-z]+( [a-z]+)?', r'\1: ' + bad, ln, count=1)
     elif fault == 'bad_colour':
         new[i] = re.sub(r'#[0-9a-fA-F]+', ['#ab', '#abcd', '#ggg', '#abcdefa', '#12345', '#'][variant % 6], ln, count=1)
@@ -212,12 +213,12 @@ def _exec_chunk(items):
     out = []
     for it in items:
         try:
-            PyDBML(it['text'])
+            PyDBML(it['text'], allow_properties=True) if it['allow'] else PyDBML(it['text'])
             oc = 'db'
         except Exception as ex:
             oc = pj.classify(ex)
         after, _, _ = pj.parse_and_project(PROBE_TEXT, links=False)     # the next parse in the same process
-        out.append({'tid': it['tid'], 'fault': it['fault'], 'site': it['site'], 'outcome': oc, 'probe': PROBE if it['tid'] % 200 == 1 or True else [], 'after': after})
+        out.append({'tid': it['tid'], 'fault': it['fault'], 'site': it['site'], 'allow': it['allow'], 'propsyntax': it['propsyntax'], 'outcome': oc, 'probe': PROBE if it['tid'] % 200 == 1 or True else [], 'after': after})
     return out
 
 
@@ -241,7 +242,7 @@ def main(argv: List[str]) -> int:
             for fault in FAULTS:
                 if i >= len(lines) and fault not in ('illegal_char_line', 'stray_identifier_line', 'stray_comma_line'):
                     continue
-                for variant in range(8 if fault in ('bad_action', 'unknown_index_type') else 3 if fault in ('empty_settings', 'trailing_comma_in_settings', 'missing_comma_in_settings', 'missing_value', 'ref_without_column', 'keyword_typo') else 4 if fault in ('duplicate_open_bracket', 'duplicate_close_bracket') else 3 if fault in ('illegal_char_line', 'bad_colour', 'bad_ref_operator', 'text_after_close_brace', 'unknown_setting') else 1):
+                for variant in range(13 if fault == 'bad_action' else 8 if fault == 'unknown_index_type' else 3 if fault in ('empty_settings', 'trailing_comma_in_settings', 'missing_comma_in_settings', 'missing_value', 'ref_without_column', 'keyword_typo') else 4 if fault in ('duplicate_open_bracket', 'duplicate_close_bracket') else 3 if fault in ('illegal_char_line', 'bad_colour', 'bad_ref_operator', 'text_after_close_brace', 'unknown_setting') else 1):
                     try:
                         new = apply_fault(lines + ([''] if i >= len(lines) else []), i, fault, variant + (seed if fault != 'unknown_setting' else 0))
                     except (ValueError, AttributeError, ZeroDivisionError, IndexError):
@@ -249,8 +250,10 @@ def main(argv: List[str]) -> int:
                     if new == lines:
                         continue
                     tid += 1
+                    # both option values (the grammar in use differs); the documents carry no properties
                     items[tid] = {'tid': tid, 'seed': seed, 'line': i, 'fault': fault, 'variant': variant, 'site': site,
-                                  'text': '\n'.join(new) + '\n'}
+                                  'text': '\n'.join(new) + '\n', 'allow': tid % 2 == 0,
+                                  'propsyntax': fault == 'unknown_setting' and "zzz: 'v'" in new[i]}
     recs: List[Dict[str, Any]] = []
     for part in core.pmap(_exec_chunk, core.chunked(list(items.values()), core.NCPU * 4)):
         recs += part
@@ -287,6 +290,8 @@ def replay(path: str) -> int:
     v = json.load(open(path))
     it = dict(v['stimulus'])
     it['tid'] = 1
+    it.setdefault('allow', False)
+    it.setdefault('propsyntax', False)
     recs = _exec_chunk([it])
     verdicts, _ = core.validate('TraceMalformed', 'TraceMalformed.cfg', recs)
     print(it['text'])
